@@ -8,7 +8,7 @@ import impl
 import msggen
 import sweep
 
-PROPFILES = ["props/C17.v"]
+PROPFILES = ["props/C17.v", "props/C17_src.v"]
 RULE = ("INPUTMODE correspondence: all class/id pairs of message ids + all 256 ids of classes 06/0b/01/13 (thorough: all "
         "65536) x frame lengths 8..12 and longer; MODETABLE (the Coq length analysis of every SET/POLL definition) vs the "
         "recorded ambiguities; search on the implementation: every SET and POLL definition x conforming payloads (counts "
